@@ -302,6 +302,7 @@ func (x Expr) Has(data any) bool {
 								switch rt.Kind() {
 								case reflect.Ptr, reflect.Slice, reflect.Struct, reflect.Array, reflect.Map:
 									stack = append(stack, v)
+									stack = append(stack, fi|descentChildFlag)
 								}
 							}
 						}
@@ -329,6 +330,7 @@ func (x Expr) Has(data any) bool {
 								switch rt.Kind() {
 								case reflect.Ptr, reflect.Slice, reflect.Struct, reflect.Array, reflect.Map:
 									stack = append(stack, v)
+									stack = append(stack, fi|descentChildFlag)
 								}
 							}
 						}
@@ -357,6 +359,7 @@ func (x Expr) Has(data any) bool {
 								switch rt.Kind() {
 								case reflect.Ptr, reflect.Slice, reflect.Struct, reflect.Array, reflect.Map:
 									stack = append(stack, v)
+									stack = append(stack, fi|descentChildFlag)
 								}
 							}
 						}
@@ -385,6 +388,7 @@ func (x Expr) Has(data any) bool {
 								switch rt.Kind() {
 								case reflect.Ptr, reflect.Slice, reflect.Struct, reflect.Array, reflect.Map:
 									stack = append(stack, v)
+									stack = append(stack, fi|descentChildFlag)
 								}
 							}
 						}
